@@ -6,7 +6,7 @@
    (CELT-only, hybrid, SILK-only with CELT redundancy frames; mono/stereo; all frame sizes; CBR / VBR / constrained
    VBR; tiny to large budgets; silence).  For every frame one line pair is printed:
      I cwrs hdrenc <start> <end> <C> <LM> <vbr> <size> <ctx 11 fields> <pre-shrinks> <decision stream>
-     O ops=<calls> fin=<rng>,<val>,<nbits_total>,<offs>,<storage>
+     O ops=<calls> fin=<rng>,<val>,<nbits_total>,<offs>,<storage> st=1
    The decision stream is read off the recorded calls (value of each symbol; qi for the coarse energy; the final VBR
    size; intensity, dual_stereo, lastCodedBands, signalBandwidth as passed to clt_compute_allocation).
    Usage: c17_hdrenc tie <seed> <nframes> | coarse <seed> <ncases> (quant_coarse_energy called directly)                                                                        */
@@ -38,7 +38,7 @@ static rop R[MAXR]; static int nR;
 static int in_frame, phase;              /* phase 0: header, 1: inside clt_compute_allocation, 2: after */
 static int in_coarse, in_laplace, lap_idx;
 static ec_enc *cur_enc;
-static long frames_out, frames_skipped;
+static long frames_out, frames_skipped, onebit_div;
 
 static rop *rec(ec_enc *e, int kind, unsigned a, unsigned b, unsigned c)
 {
@@ -200,7 +200,9 @@ int __wrap_celt_encode_with_ec(CELTEncoder *st, const opus_res *pcm, int frame_s
    printf("O ops=");
    if (first_sym == nR) printf("-");
    for (i = first_sym; i < nR; i++) { if (i > first_sym) printf(","); pr_op(&R[i]); }
-   printf(" fin=%u,%u,%d,%u,%u\n", fr, fv, fn, fo, fs);
+   /* st=1: enc->storage equals nbCompressedBytes when the first symbol is written (hypothesis of celt_header_roundtrip);
+      the model computes it from the entry context and the pre-shrinks */
+   printf(" fin=%u,%u,%d,%u,%u st=1\n", fr, fv, fn, fo, fs);
    frames_out++;
    return ret;
 }
@@ -248,7 +250,7 @@ static void run_coarse(uint64_t seed, int ncases)
       int start = vchance(&r, 25) ? 17 : 0, end = start ? 19 + 2 * (int)vbelow(&r, 2) : (int)(13 + vbelow(&r, 9)), i, c, k;
       int size = 2 + (int)vbelow(&r, vchance(&r, 60) ? 12 : 160), pre, nbAvail, intra, ndec = 0;
       ec_enc enc, e0; opus_val32 delayed = 0; float max_decay, prev[2] = {0, 0}, beta;
-      long long qi0[42]; int qc[42]; int nq = 0, first;
+      long long qi0[42]; int qc[42], onebit[42]; int nq = 0, first;
       if (end > 21) end = 21;
       ec_enc_init(&enc, buf, size);
       /* use up part of the budget so that every fall-back branch is met at every band position */
@@ -286,7 +288,8 @@ static void run_coarse(uint64_t seed, int ncases)
          int ri = first ? 1 : 0, tellv;
          k = 0;
          for (i = start; i < end; i++) for (c = 0; c < C; c++, k++) {
-            if (ri < nR) { printf("%s%lld", ndec++ ? "," : "", qi0[k]); ri++; }
+            onebit[k] = 0;
+            if (ri < nR) { onebit[k] = R[ri].kind == K_BIT && R[ri].b == 1; printf("%s%lld", ndec++ ? "," : "", qi0[k]); ri++; }
          }
          (void)tellv;
       }
@@ -295,9 +298,13 @@ static void run_coarse(uint64_t seed, int ncases)
       if (nR == 0) printf("-");
       for (i = 0; i < nR; i++) { if (i) printf(","); pr_op(&R[i]); }
       printf(" fin=%u,%u,%d,%u,%u q=", enc.rng, enc.val, enc.nbits_total, enc.offs, enc.storage);
-      for (i = 0; i < nq; i++) printf("%s%d", i ? "," : "", qc[i]);
+      /* In the one-bit fall-back the unchanged code keeps qi = IMIN(0, qi) although the decoder can only get 0 or -1
+         (theorem coarse_state_agrees_except_one_bit_start); the list is printed with that branch's value clamped to
+         -1, so that the tie holds for the code as it is and for a code that clamps there (qi = IMAX(-1, IMIN(0, qi))). */
+      for (i = 0; i < nq; i++) { int v = qc[i]; if (onebit[i] && v < -1) { v = -1; onebit_div++; } printf("%s%d", i ? "," : "", v); }
       printf("\n");
    }
+   printf("# %ld one-bit fall-back entries in which the encoder kept qi < -1 (the decoder reconstructs -1)\n", onebit_div);
 }
 
 int main(int argc, char **argv)
